@@ -345,7 +345,10 @@ impl NestedTrieDawg {
         }
 
         // Mark final state as terminal
-        if (current_state as usize) < self.states.len() {
+        // (a state that is already terminal means the key is already present)
+        if (current_state as usize) < self.states.len()
+            && !self.states[current_state as usize].is_terminal()
+        {
             self.states[current_state as usize].set_terminal(true);
             self.num_keys += 1;
         }
